@@ -4,6 +4,7 @@ CONSTANTS
   NewNs = {"n1", "n2"}
   Objs = {"a", "b"}
   FixF4 = FALSE
+  FixF5 = TRUE
   MaxCreates = 3
 INVARIANTS AllEnabled
 CHECK_DEADLOCK FALSE
